@@ -277,7 +277,11 @@ func scenarioSparse(c *harness.Ctx) {
 	sp.Pos = 0
 	r, err := region.Load(rw)
 	if err != nil {
-		c.Fail("region.reload", "reopen", "load-error", "Load of a valid sparse region failed: %v", err)
+		// An implementation may refuse a file that no history of its own writes
+		// could have produced (nothing in the statement forbids that); what it may
+		// not do is accept the file and then return wrong data.
+		pSparseRefused.Hit()
+		c.Logf("Load refused the sparse file: %v (run skipped)", err)
 		return
 	}
 	c.Config["placed_sectors"] = len(placed)
@@ -394,3 +398,5 @@ var prop = &harness.Property{
 }
 
 func TestWorker(t *testing.T) { harness.Main(t, prop) }
+
+var pSparseRefused = simrt.NewProbe("region.sparse.file.refused.by.Load(run.skipped)")
